@@ -45,10 +45,16 @@ def gen(seed: int, tier: str) -> dict[str, Any]:
     t = 0.05
     for i in range(n):
         g = rng.choice(["zero", "tiny", "half", "near-", "eq", "near+", "far"])
+        if g == "zero" and ops and ops[-1].get("iters"):
+            g = "tiny"      # an operation placed some iterations into its instant must stay the last one of that instant
         t += {"zero": 0.0, "tiny": 0.01, "half": ref / 2, "near-": ref - 0.01, "eq": ref, "near+": ref + 0.01,
               "far": ref * 2.5}[g]
         k = rng.choices(["set", "set_skip", "init", "read", "ext_write"], [8, 4, 1, 4, 1])[0]
         op: dict[str, Any] = {"t": round(t, 6), "op": k, "g": g}
+        if g == "eq":
+            # exactly one cooldown after the previous operation - the instant the cooldown timer of a telegram sent then
+            # expires - and 0..3 loop iterations into that instant (before / after the timer's own callbacks)
+            op["iters"] = rng.choice([0, 0, 1, 1, 2, 3])
         if k in ("set", "set_skip", "ext_write"):
             op["v"] = rng.choice([1, 2, 3, rng.randrange(256)])
         if k == "init":
@@ -111,8 +117,28 @@ def run(plan: dict[str, Any]) -> dict[str, Any]:
             elif k == "ext_write":
                 stub.deliver(W.cemi_ldata(W.L_DATA_IND, 0x1108, GA, tpci_apci=W.gv_write(bytes((op["v"],)))), "ext")
 
+        def run_now(coro):
+            try:
+                coro.send(None)
+            except StopIteration:
+                return
+            raise RuntimeError("operation suspended")    # none of the operations awaits anything that suspends
+
+        ref_ = c if c else 1.0
+        when_prev = None
         for op in plan["ops"]:
-            loop.at(t0 + op["t"], (lambda o=op: loop.create_task(do(o))), label="op")
+            when = t0 + op["t"]
+            if op.get("g") == "eq" and when_prev is not None:
+                when = when_prev + ref_      # the very float the library computes for its timer (time of the send + cooldown)
+            if when_prev is not None and when < when_prev:
+                when = when_prev             # plan order is execution order (the two sums may differ by an ulp)
+            when_prev = when
+            if op.get("iters"):
+                # the operation runs inside a callback of that loop iteration (as the continuation of a user coroutine woken
+                # up then would), not as the first step of a new task one iteration later
+                loop.at(when, (lambda o=op: loop.soon_iters(o["iters"], lambda: run_now(do(o)), label="op")), label="op")
+            else:
+                loop.at(when, (lambda o=op: loop.create_task(do(o))), label="op")
         await asyncio.sleep(plan["ops"][-1]["t"] + max(c, p, 1.0) * 3 + 1.0)
         await xknx.stop()
 
